@@ -255,6 +255,7 @@ func (l *sparseFileLoader) loadChunk(i int) error {
 			return
 		}
 
+		verifYield("sparse.fetched")
 		l.mu.Lock()
 		l.done.Set(i, true)
 		l.mu.Unlock()
